@@ -1,7 +1,6 @@
 INIT Init
 NEXT Next
-INVARIANT OrderIndependent
 CONSTANTS
  Recheck = TRUE
- Emit = FALSE
+ Emit = TRUE
 CHECK_DEADLOCK FALSE
